@@ -525,17 +525,16 @@ def _exec_grid_stmt(st, f, env, grid):
                 for s2 in (st.body if val else st.orelse):
                     _exec_grid_stmt(s2, f, env, grid)
                 return
-        if neg:
-            raise _NotUnderstood(norm(st.test))
-        if isinstance(t, ast.Compare) and len(t.ops) == 1:
-            a_, b_ = _int_expr(t.left, f, env), _int_expr(t.comparators[0], f, env)
-            if a_ is not None and b_ is not None:
-                import operator as _op
-                fn = {ast.Lt: _op.lt, ast.LtE: _op.le, ast.Gt: _op.gt, ast.GtE: _op.ge, ast.Eq: _op.eq, ast.NotEq: _op.ne}.get(type(t.ops[0]))
-                if fn is not None:
-                    for s2 in (st.body if fn(a_, b_) else st.orelse):
-                        _exec_grid_stmt(s2, f, env, grid)
-                    return
+        if isinstance(t, ast.Compare):
+            # a (possibly chained, possibly negated) comparison of integer expressions: `if s >= e:`, `if not 0 <= s < e:`
+            import operator as _op
+            vals = [_int_expr(x_, f, env) for x_ in [t.left] + list(t.comparators)]
+            fns = [{ast.Lt: _op.lt, ast.LtE: _op.le, ast.Gt: _op.gt, ast.GtE: _op.ge, ast.Eq: _op.eq, ast.NotEq: _op.ne}.get(type(o_)) for o_ in t.ops]
+            if all(v_ is not None for v_ in vals) and all(fn_ is not None for fn_ in fns):
+                res = all(fn_(vals[i_], vals[i_ + 1]) for i_, fn_ in enumerate(fns)) != neg
+                for s2 in (st.body if res else st.orelse):
+                    _exec_grid_stmt(s2, f, env, grid)
+                return
         raise _NotUnderstood(norm(st.test))
     if isinstance(st, ast.Return) and st.value is None:
         raise StopIteration
